@@ -780,6 +780,10 @@ func (msc *MinerSmartContract) wait(t *transaction.Transaction,
 		return "", common.NewErrorf("msc - wait", "can't get DKG miners: %v", err)
 	}
 
+	if _, ok := dmn.SimpleNodes[t.ClientID]; !ok {
+		return "", common.NewError("msc - wait", "miner not part of dkg set")
+	}
+
 	if already, ok := dmn.Waited[t.ClientID]; ok && already {
 		return "", common.NewError("msc - wait", "already checked in")
 	}
